@@ -33,14 +33,18 @@ shutil.copy(f"{src}/{m}.diff", f"{dst}/patch.diff")
 shutil.copy(f"{src}/{m}_demo.py", f"{dst}/demo.py")
 # run the registered checks against it in /repo
 caught = {}
-sh(f"git -C /repo apply {dst}/patch.diff")
+if os.environ.get("NO_CHECKS"):
+    checks = []   # the registered checks are run afterwards by tools/seedpar.py (parallel scratch copies, /repo untouched)
+else:
+    sh(f"git -C /repo apply {dst}/patch.diff")
 try:
     for c in checks:
         r = sh(f"cd /verif && /venv/bin/python tools/check.py --property {c}")
         lines = [l for l in r.stdout.splitlines() if l.startswith(("VIOLATION", "KNOWN", "INFRA"))]
         caught[c] = {"exit": r.returncode, "lines": lines[:3]}
 finally:
-    sh("git -C /repo checkout -- .")
+    if not os.environ.get("NO_CHECKS"):
+        sh("git -C /repo checkout -- .")
 json.dump({"id": sid, "property": prop, "summary": meta.get("summary"), "needs": meta.get("needs"), "files": meta.get("files"),
            "confirmed_by": "tools/confirm_seed.py: applied on a scratch worktree of /repo HEAD; full pytest suite passes with the change; demo exits non-zero with it and 0 without",
            "confirmation": res, "checks_run": caught}, open(f"{dst}/meta.json", "w"), indent=1)
